@@ -192,23 +192,24 @@ def dedup(nodes):
     return list({enc(n): n for n in nodes}.items())
 
 
-def repeated_subterms():
+def repeated_subterms(z=None, r=None):
     """one sub-expression occurring TWICE in a filter, in every pair of operand contexts (parent operator x side), so that the two
     occurrences need different parenthesisation — state a printer keeps per node between the two visits shows here and nowhere else"""
     ar = [ast.Add, ast.Sub, ast.Mult, ast.Div, ast.Mod]
     out = []
+    z = z if z is not None else I("i3")
     subs = [ast.BinOp(o(), I("i1"), I("i2")) for o in ar] + [ast.UnaryOp(ast.USub(), I("i1"))]
     for s in subs:
         for o1 in ar:
             for o2 in ar:
                 for l1 in (True, False):
                     for l2 in (True, False):
-                        A = ast.BinOp(o1(), s, I("i3")) if l1 else ast.BinOp(o1(), I("i3"), s)
-                        B = ast.BinOp(o2(), s, I("i3")) if l2 else ast.BinOp(o2(), I("i3"), s)
+                        A = ast.BinOp(o1(), s, z) if l1 else ast.BinOp(o1(), z, s)
+                        B = ast.BinOp(o2(), s, z) if l2 else ast.BinOp(o2(), z, s)
                         out.append(ast.Compare(ast.Lt(), A, B))
-        out.append(ast.Compare(ast.Lt(), s, ast.BinOp(ast.Mult(), s, I("i3"))))
+        out.append(ast.Compare(ast.Lt(), s, ast.BinOp(ast.Mult(), s, z)))
     cmp = lambda a, b: ast.Compare(ast.Eq(), I(a), ast.Integer(b))
-    p, q, r = cmp("i1", "1"), cmp("i2", "2"), cmp("i3", "3")
+    p, q, r = cmp("i1", "1"), cmp("i2", "2"), (r if r is not None else cmp("i3", "3"))
     bsubs = [ast.BoolOp(ast.Or(), p, q), ast.BoolOp(ast.And(), p, q), ast.UnaryOp(ast.Not(), p), p, I("b1")]
     bctx = [lambda s: ast.BoolOp(ast.And(), s, r), lambda s: ast.BoolOp(ast.And(), r, s), lambda s: ast.BoolOp(ast.Or(), s, r),
             lambda s: ast.BoolOp(ast.Or(), r, s), lambda s: ast.UnaryOp(ast.Not(), s), lambda s: ast.Compare(ast.Eq(), s, ast.Boolean("true")),
